@@ -75,13 +75,13 @@ Proof.
 Qed.
 
 Lemma times_subrange : forall t0 tstep n sdate stime s d h ts,
-  0 <= n -> valid_step tstep = true -> sec_of_hhmmss tstep < 86400 ->
+  0 <= n ->
   impl_slice_time t0 tstep n sdate stime (Some s) = Some (d, h, ts) ->
   exists st cnt, sel_range n s = Some (st, cnt) /\ 0 <= st /\ 0 < cnt /\ st + cnt <= n
     /\ valid_hhmmss h = true
     /\ forall j, 0 <= j < cnt -> attr_time d h ts j = t0 + (st + j) * sec_of_hhmmss tstep.
 Proof.
-  intros t0 tstep n sdate stime s d h ts Hn V L H. unfold impl_slice_time in H.
+  intros t0 tstep n sdate stime s d h ts Hn H. unfold impl_slice_time in H.
   destruct (sel_range n s) as [[st cnt]|] eqn:E; [|discriminate].
   destruct (cnt =? 0) eqn:C; [discriminate|]. apply Z.eqb_neq in C.
   destruct (sel_range_bounds _ _ _ _ Hn E) as [B1 [B2 B3]].
@@ -90,11 +90,8 @@ Proof.
   injection H as <- <- <-. destruct F as [F1 F2].
   exists st, cnt. repeat split; try lia; try exact F2.
   intros j Hj. unfold attr_time. rewrite F1.
-  assert (S0 : 0 <= sec_of_hhmmss tstep).
-  { unfold valid_step in V. apply andb_true_iff in V as [V V3]. apply andb_true_iff in V as [V1 V2].
-    apply Z.leb_le in V1. unfold sec_of_hhmmss, hhmmss_h, hhmmss_m, hhmmss_s. lia. }
   destruct (1 <? cnt) eqn:C1.
-  - rewrite sec_of_hhmmss_of_sec. rewrite Z.mod_small by lia. lia.
+  - rewrite sec_of_hhmmss_of_sec. lia.
   - apply Z.ltb_ge in C1. assert (j = 0) by lia. subst j. lia.
 Qed.
 
